@@ -268,7 +268,7 @@ func nondetCensus(r *Run, label string, rootNames []string, allowTime bool) {
 					if g == nil || g.Pkg != p.SPkg {
 						continue
 					}
-					if _, ok := globalReadAllowed[g.Name()]; !ok {
+					if _, ok := globalReadAllowed[g.Name()]; !ok && !p.constantTableGlobal(g) {
 						r.Fail(label+"#"+name+".global:"+g.Name(), x.Pos(), "read of package-level variable "+g.Name()+" inside the "+label+" closure: draws may depend on shared mutable state (not in the reviewed allow-list)")
 					}
 				case ssa.CallInstruction:
@@ -463,4 +463,123 @@ func generatorConstructors(r *Run) []string {
 	}
 	sortStrings(out)
 	return out
+}
+
+// constantTableGlobal: a package-level variable that is a constant table — assigned only during package
+// initialisation, from literals, function literals and fresh composites (no call whose result could differ from run
+// to run), and afterwards only read: loaded and looked up / indexed / ranged over / measured, never stored through and
+// never handed to a callee. Reading such a variable is as deterministic as reading a constant.
+func (p *Program) constantTableGlobal(g *ssa.Global) bool {
+	isInit := func(fn *ssa.Function) bool {
+		for fn.Parent() != nil {
+			fn = fn.Parent()
+		}
+		return isPackageInit(fn)
+	}
+	readOnlyUse := func(v ssa.Value) bool {
+		if v.Referrers() == nil {
+			return true
+		}
+		for _, ref := range *v.Referrers() {
+			switch x := ref.(type) {
+			case *ssa.Lookup, *ssa.Index, *ssa.Range, *ssa.DebugRef:
+			case *ssa.IndexAddr:
+				if x.Referrers() != nil {
+					for _, r2 := range *x.Referrers() {
+						if u, ok := r2.(*ssa.UnOp); !ok || u.Op != token.MUL {
+							return false
+						}
+					}
+				}
+			case *ssa.Call:
+				if k := p.calleeKey(x.Common()); k != "builtin:len" && k != "builtin:cap" {
+					return false
+				}
+			default:
+				return false
+			}
+		}
+		return true
+	}
+	okInit := false
+	for _, fn := range p.allFuncs() {
+		inInit := isInit(fn)
+		for _, b := range fn.Blocks {
+			for _, in := range b.Instrs {
+				uses := false
+				for _, op := range in.Operands(nil) {
+					if *op == ssa.Value(g) {
+						uses = true
+					}
+				}
+				if !uses {
+					continue
+				}
+				switch x := in.(type) {
+				case *ssa.UnOp:
+					if x.Op != token.MUL || (!inInit && !readOnlyUse(x)) {
+						return false
+					}
+				case *ssa.Store:
+					if x.Addr != ssa.Value(g) || !inInit {
+						return false
+					}
+					// the initial value: built without calls
+					seen := map[ssa.Value]bool{}
+					var pure func(v ssa.Value, d int) bool
+					pure = func(v ssa.Value, d int) bool {
+						if v == nil || seen[v] {
+							return true
+						}
+						seen[v] = true
+						if d > 12 {
+							return false
+						}
+						switch y := v.(type) {
+						case *ssa.Const, *ssa.Function, *ssa.Global:
+							return true
+						case *ssa.MakeClosure:
+							return len(y.Bindings) == 0
+						case *ssa.MakeMap, *ssa.MakeSlice, *ssa.Alloc, *ssa.Slice, *ssa.Convert, *ssa.ChangeType, *ssa.MakeInterface, *ssa.IndexAddr, *ssa.FieldAddr, *ssa.UnOp, *ssa.BinOp:
+							in2 := v.(ssa.Instruction)
+							for _, op := range in2.Operands(nil) {
+								if *op != nil && !pure(*op, d+1) {
+									return false
+								}
+							}
+							// what is put into a container built here
+							if v.Referrers() != nil {
+								for _, ref := range *v.Referrers() {
+									switch z := ref.(type) {
+									case *ssa.MapUpdate:
+										if !pure(z.Key, d+1) || !pure(z.Value, d+1) {
+											return false
+										}
+									case *ssa.Store:
+										if z.Addr == v && !pure(z.Val, d+1) {
+											return false
+										}
+									case *ssa.IndexAddr, *ssa.FieldAddr:
+										if !pure(ref.(ssa.Value), d+1) {
+											return false
+										}
+									}
+								}
+							}
+							return true
+						}
+						return false
+					}
+					if !pure(x.Val, 0) {
+						return false
+					}
+					okInit = true
+				case *ssa.DebugRef:
+				default:
+					return false
+				}
+			}
+		}
+	}
+	return okInit
 }
